@@ -4,6 +4,7 @@ pub mod ext;
 pub mod prog;
 pub mod props;
 pub mod val;
+pub mod witness;
 pub mod xs;
 
 use common::*;
